@@ -50,7 +50,7 @@ func ruleFirstEntryWins(c *core.Ctx) {
 			c.Check(rule, "pdf."+name+"/store#"+itoa(i), "a store into the xref map happens only where a lookup of that entry returned nil (an entry from a newer section is never overwritten)", func(o *core.Ob) {
 				o.At(fn.Site(st.Stmt, "xref["+core.ExprStr(st.Index)+"] = ..."))
 				ok := g.GuardedBy(st.V, func(a core.Atom) bool {
-					idx, ok := atomIsMapEntryNil(g.Info, a, m, true)
+					idx, ok := atomIsMapEntryNilVia(fn, a, m, true)
 					if !ok {
 						return false
 					}
